@@ -175,8 +175,8 @@ impl Property for C29 {
         Meta {
             id: "C29",
             level: "exploration",
-            rule: "one evaluation = one operation of a seeded history (3-10 operations from ResourceStore add / get / exists / write_stream / path_for_id with set_base_path(root), Builder::add_resource with a base path, and an adversary step that retargets a symlink) on a seeded directory tree under a private work directory: root/ (files, directories, symlinks to files and directories - inside->inside, inside->outside, chained, dangling, absolute and relative) and outside/ with sentinel files carrying unique markers. Identifiers come from a traversal grammar (.. runs, absolute paths, backslashes, %2e%2e%2f, . segments, names of the links in the tree, nested paths through links). Oracle after every operation: the recursive snapshot of everything outside root is unchanged (write containment), no returned byte string contains a sentinel marker (read containment), exists(id) is false and path_for_id(id) is None whenever the real location of root/id - resolved by the simulator with std::fs::canonicalize - is outside root (existence leak). Non-trivial = identifier touches a link or a traversal form; distinct = (tree, history)",
-            assumptions: &["the adversary acts between operations, never during one (no TOCTOU races)", "Reader::to_folder and archive entry names are not in this workload"],
+            rule: "one evaluation = one operation of a seeded history (3-10 operations from ResourceStore add / get / exists / write_stream / path_for_id with set_base_path(root), Builder::add_resource with a base path, Reader::to_folder into root/export<i>, Builder::with_archive of a ZIP archive with traversal entry names and a base_path in its manifest.json followed by a sign, a sign whose definition names its (ingredient) thumbnail by a traversal identifier with the base path set, and an adversary step that retargets a symlink) on a seeded directory tree under a private work directory: root/ (files, directories, symlinks to files and directories - inside->inside, inside->outside, chained, dangling, absolute and relative) and outside/ with sentinel files carrying unique markers. Identifiers come from a traversal grammar (.. runs, absolute paths, backslashes, %2e%2e%2f, . segments, names of the links in the tree, nested paths through links). Oracle after every operation: the recursive snapshot of everything outside root is unchanged (write containment), no returned byte string contains a sentinel marker (read containment), exists(id) is false and path_for_id(id) is None whenever the real location of root/id - resolved by the simulator with std::fs::canonicalize - is outside root (existence leak); an export changes nothing in root outside its own folder; no signed manifest contains a sentinel marker. Non-trivial = identifier touches a link or a traversal form; distinct = (tree, history)",
+            assumptions: &["the adversary acts between operations, never during one (no TOCTOU races)", "Reader::to_folder is driven with forged data-box labels (the only label kind the exporter maps to a path without resolving it first) and with a link planted in the export folder; archive import uses hand-built ZIP archives (stored entries) whose manifest.json carries a base_path"],
             real: &["ResourceStore (add/get/exists/write_stream/path_for_id, resolve_within_root, sanitize_archive_path), Builder::add_resource"],
             stubbed: &["none: a real directory tree under /verif/work"],
             crash_prop: "C10",
